@@ -53,6 +53,16 @@ func (r *run) binopVals(op token.Token, xv, yv Value, xt, yt types.Type, cur *no
 	switch op {
 	case token.EQL, token.NEQ:
 		eq := r.valuesEqual(xv, yv, xt, yt)
+		// a comparison with the empty string is a test of the length
+		if xs, ok := xv.(Scalar); ok && xs.T.Sort == StrSort {
+			if ys, ok := yv.(Scalar); ok && ys.T.Sort == StrSort {
+				for _, pr := range [][2]*smt.Term{{xs.T, ys.T}, {ys.T, xs.T}} {
+					if s, isConst := r.E.strConstValue(pr[1]); isConst && s == "" && !pr[0].HasBound {
+						r.assume(c.True(), c.Eq(eq, c.Eq(r.uf("strlen$", r.idx(), pr[0]), r.idxConst(0))))
+					}
+				}
+			}
+		}
 		if op == token.NEQ {
 			eq = c.Not(eq)
 		}
@@ -192,7 +202,25 @@ func (r *run) binopVals(op token.Token, xv, yv Value, xt, yt types.Type, cur *no
 		case token.LSS, token.LEQ, token.GTR, token.GEQ:
 			return Scalar{r.uf(name, smt.Bool, a, b)}, nil
 		}
-		return Scalar{r.uf(name, a.Sort, a, b)}, nil
+		res := r.uf(name, a.Sort, a, b)
+		if op == token.ADD && a.Sort == StrSort && !res.HasBound {
+			// string concatenation: the lengths add up; in int mode also the bytes (first those of a, then
+			// those of b)
+			la, lb := r.uf("strlen$", r.idx(), a), r.uf("strlen$", r.idx(), b)
+			r.assume(c.True(), r.sle(r.idxConst(0), la))
+			r.assume(c.True(), r.sle(r.idxConst(0), lb))
+			r.assume(c.True(), c.Eq(r.uf("strlen$", r.idx(), res), r.iadd(la, lb)))
+			if r.mode == "int" {
+				bs := r.scalarSort(types.Typ[types.Uint8])
+				j := c.BoundVar("j", r.idx())
+				at := r.uf("strat$", bs, res, j)
+				r.assume(c.True(), c.Forall([]*smt.Term{j}, c.Implies(c.And(r.sle(r.idxConst(0), j), r.slt(j, la)),
+					c.Eq(at, r.uf("strat$", bs, a, j))), []*smt.Term{at}))
+				r.assume(c.True(), c.Forall([]*smt.Term{j}, c.Implies(c.And(r.sle(la, j), r.slt(j, r.iadd(la, lb))),
+					c.Eq(at, r.uf("strat$", bs, b, r.isub(j, la)))), []*smt.Term{at}))
+			}
+		}
+		return Scalar{res}, nil
 	}
 	r.unsupported("binary operator %s on %s", op, a.Sort)
 	return nil, nil
